@@ -48,6 +48,9 @@ def main():
         status = "KILLED" if killed else ("UNDECIDED" if und else "SURVIVED")
         if not killed:
             bad += 1
+        meta["selftest"] = {"status": status, "tier": tier, "seconds": round(time.time() - t0),
+                            "runs": [{"check": p_, "exit": rc, "violation": (v[0] if v else None)} for p_, rc, v in verdicts]}
+        json.dump(meta, open(os.path.join(sd, i, "meta.json"), "w"), indent=1)
         print("%-28s %-9s %5.0fs  %s" % (i, status, time.time() - t0, "; ".join("%s rc=%d %s" % (p_, rc, (v[0].split("replay=")[1] if v else "")) for p_, rc, v in verdicts)))
         shutil.rmtree(scratch, ignore_errors=True)
     sys.exit(1 if bad else 0)
